@@ -16,12 +16,15 @@ ReqPaths == UNION {[1..k -> ReqComps] : k \in 0..MaxDepth}
 (* prefix stripping has to cope with                                        *)
 Prefixes == {"m", "m/", "m//", "mm", "/abs", ""}
 
-VARIABLES req, prefix, trail, opts, started, disclosed
-vars == <<req, prefix, trail, opts, started, disclosed>>
+VARIABLES req, prefix, trail, opts, started, disclosed,
+          history     \* what the same daemon process served before: "fresh" | "other-module" (the same request, to a
+                      \* sibling module whose files have the same relative names, sizes and mtimes but other contents)
+vars == <<req, prefix, trail, opts, started, disclosed, history>>
 
 Init == /\ req \in ReqPaths /\ prefix \in Prefixes /\ trail \in BOOLEAN
         /\ opts \in SUBSET {"c", "l"}
         /\ started = "no" /\ disclosed = {}
+        /\ history \in {"fresh", "other-module"}
 
 (* where the walk starts: the request path resolved through the module root *)
 Start == IF prefix = "/abs" THEN Refused ELSE RootedLoc(req, FALSE, FALSE, TRUE)
@@ -30,19 +33,19 @@ NaiveStart == IF prefix = "/abs" THEN Out(<<"abs">>) ELSE NaiveLoc(req, FALSE, F
 Walk == /\ started = "no"
         /\ started' = (IF Start.reg = "refused" THEN "refused" ELSE "walked")
         /\ disclosed' = (IF Start.reg = "in" THEN {"inside"} ELSE {})    \* only objects below an inside location are listed
-        /\ UNCHANGED <<req, prefix, trail, opts>>
+        /\ UNCHANGED <<req, prefix, trail, opts, history>>
 Done == started # "no" /\ UNCHANGED vars
 Next == Walk \/ Done
 Spec == Init /\ [][Next]_vars
 
-OnlyInside == disclosed \subseteq {"inside"}
+OnlyInside == disclosed \subseteq {"inside"}       \* whatever was served before (nothing of it is remembered)
 Effective == NaiveStart.reg = "out"
 
 PathStr(p) == LET F[i \in 0..Len(p)] == IF i = 0 THEN "" ELSE (IF i = 1 THEN p[1] ELSE F[i-1] \o "/" \o p[i]) IN F[Len(p)]
 OutFile == IOEnv.VERIF_OUT
 Emit == (started = "no") =>
   CSVWrite("%1$s", <<ToJson([prefix |-> prefix, path |-> PathStr(req), trail |-> trail, opts |-> opts, effective |-> Effective,
-                             inside |-> (Start.reg = "in")])>>, OutFile)
+                             inside |-> (Start.reg = "in"), prime |-> (history = "other-module")])>>, OutFile)
 GenNext == FALSE /\ UNCHANGED vars
 GenSpec == Init /\ [][GenNext]_vars
 =============================================================================
